@@ -35,8 +35,11 @@ Definition names_used : list string :=
 Lemma names_exist : forallb (fun n => match lookup_long flag_table (codes n) with Some _ => true | None => false end) names_used = true.
 Proof. vm_compute. reflexivity. Qed.
 
+(* createMarshaler selects the YAML marshaler BEFORE the raw wrapper: under --yaml-output the raw flags (and with them the
+   NUL rejection of --raw-output0, the only way they reach the status) are inactive *)
 Definition opts_of (fo : list fval) : opts :=
-  mkO (fbool fo "raw-output") (fbool fo "raw-output0") (fbool fo "join-output") (fbool fo "compact-output")
+  let y := fbool fo "yaml-output" in
+  mkO (fbool fo "raw-output" && negb y) (fbool fo "raw-output0" && negb y) (fbool fo "join-output" && negb y) (fbool fo "compact-output")
       (fbool fo "tab") (option_map Z.to_nat (findent fo)) (fbool fo "exit-status") (fbool fo "null-input") (fbool fo "slurp").
 
 (* ---- the outside world ---- *)
